@@ -484,6 +484,7 @@ int main(int argc, char **argv) {
     }
     if (!strcmp(c, "watchdog")) {
       watchdog = (unsigned)atoi(tok[1]);
+      alarm(watchdog); /* (also re-arms the period that is running: a case that needs longer announces it first) */
       oputs("W\n");
       continue;
     }
